@@ -56,7 +56,7 @@ func collectSlots(v any, depth int, out *[]slot) {
 var HostileKeys = []string{"a.a", "x.x", "", "a.b", "default", "example", "x-ext", "$ref", "items", "properties", "0", "é", "a b", "paths", "allOf"}
 
 // MutateKinds lists the structural edits of Mutate.
-var MutateKinds = []string{"delete", "retype", "null", "rename", "transplant", "duplicate", "retarget-ref", "ref-with-sibling", "hostile-name", "string-case", "blank-string", "plant-value"}
+var MutateKinds = []string{"delete", "retype", "null", "rename", "transplant", "duplicate", "retarget-ref", "ref-with-sibling", "hostile-name", "string-case", "blank-string", "plant-value", "self-ref-definition"}
 
 // Mutate applies one structural edit to a decoded document (in place) and returns
 // the kind of edit and the depth at which it landed (0 = a top-level member); ok is
@@ -164,6 +164,20 @@ func Mutate(t *rapid.T, doc map[string]any) (kind string, depth int, ok bool) {
 		}
 		m[rapid.SampledFrom([]string{"default", "default", "example"}).Draw(t, "plantedkey")] = v
 		return kind, c.deep + 1, true
+	case "self-ref-definition":
+		// a definition that is a $ref to itself (or to a definition that refers back), keeping its content as an allOf sibling
+		defs, _ := doc["definitions"].(map[string]any)
+		names := SortedKeys(defs)
+		if len(names) == 0 {
+			return kind, 0, false
+		}
+		a := names[rapid.IntRange(0, len(names)-1).Draw(t, "selfrefdef")]
+		b := names[rapid.IntRange(0, len(names)-1).Draw(t, "selfrefdef2")]
+		defs[a] = map[string]any{"$ref": "#/definitions/" + escapePtr(b), "allOf": []any{defs[a]}}
+		if b != a {
+			defs[b] = map[string]any{"$ref": "#/definitions/" + escapePtr(a), "allOf": []any{defs[b]}}
+		}
+		return kind, 1, true
 	case "hostile-name":
 		// give a parameter / header / tag a hostile name (the value of a "name" member)
 		var nameSlots []slot
